@@ -331,7 +331,7 @@ def cos(x: Interval):
 
 def cos_vector(x: Interval):  # vectorised version of cos()
     if x.unsized:
-        return sin(x)
+        return cos(x)
 
     twopi = 2 * numpy_pi
 
